@@ -34,7 +34,7 @@ static void spec_leaf(cert_spec *s, const char *cn, int ku) { memset(s, 0, sizeo
 static int make_name(uint8_t *name, size_t *nl, const char *cn) { *nl = 0; return x509_name_set(name, nl, 128, "CN", NULL, NULL, NULL, NULL, cn); }
 /* returns 1; cert DER appended at *out */
 static int make_cert(const cert_spec *s, const SM2_KEY *subject_key, const SM2_KEY *issuer_key, const char *issuer_cn, uint8_t *out, size_t *outlen) {
-	uint8_t subj[128], iss[128], exts[512]; size_t sl, il, el = 0; static const SM2_KEY *other; creds_init(); other = &CK[11];
+	uint8_t subj[128], iss[128], exts[512]; size_t sl, il, el = 0; const SM2_KEY *other; creds_init(); other = &CK[11];
 	if (make_name(subj, &sl, s->cn) != 1 || make_name(iss, &il, s->issuer_mismatch ? "ZZ" : issuer_cn) != 1) return -1;
 	if (s->bc && x509_exts_add_basic_constraints(exts, &el, sizeof exts, X509_critical, s->bc == 2, s->pathlen) != 1) return -2;
 	if (s->ku >= 0 && x509_exts_add_key_usage(exts, &el, sizeof exts, s->ku_crit ? X509_critical : X509_non_critical, s->ku) != 1) return -3;
